@@ -111,6 +111,50 @@ def audit_sources():
     return bad
 
 
+# ------------------------------------------------------------------ which generated files does a theorem file need?
+def gen_requirements(files):
+    """transitive closure of `From EP Require Import ...` starting from the given coq-relative .v files: names X of every gen.X reached"""
+    seen, need = set(), set()
+    todo = list(files)
+    while todo:
+        f = todo.pop()
+        if f in seen:
+            continue
+        seen.add(f)
+        pth = os.path.join(COQ, f)
+        if not os.path.exists(pth):
+            continue
+        txt = open(pth).read()
+        for m in re.finditer(r'From\s+EP\s+Require\s+(?:Import|Export)\s+([^.]*(?:\.[A-Za-z_][^.]*)*?)\.\s', txt + ' '):
+            for tok in m.group(1).split():
+                if '.' not in tok:
+                    continue
+                d, nm = tok.split('.', 1)
+                if d == 'gen':
+                    need.add(nm)
+                elif d in ('lib', 'model', 'spec', 'proofs', 'props', 'pending'):
+                    todo.append('%s/%s.v' % (d, nm))
+    return need
+
+
+def groups_for(gen_names):
+    """translation groups that produce the given coq/gen files (tools/gen_index.json, refreshed from the translator when a name is unknown)"""
+    ip = os.path.join(VERIF, 'tools', 'gen_index.json')
+    idx = json.load(open(ip)) if os.path.exists(ip) else {}
+    if any(n not in idx for n in gen_names):
+        try:
+            import translate
+            for g, f in translate.GROUPS.items():
+                try:
+                    for fn in f():
+                        idx[fn] = g
+                except Exception:
+                    pass
+        except Exception:
+            pass
+    return [idx[n] for n in sorted(gen_names) if n in idx]
+
+
 # ------------------------------------------------------------------ coq build
 def write_coqproject():
     files = []
